@@ -131,6 +131,33 @@ CHECKS = {
             "the same values and leave the same paths as on a twin store that never saw the restricted run, executing only absent nodes.",
             "the empty stage list counts as a restricted run",
             "5/C15"),
+    "C06": ("fsmc", "fault_enumeration",
+            "exhaustive crash-point enumeration of the real store code over an in-memory POSIX file system (single and double crash)",
+            "Each workload (first keep of str / pickled / bytes / None results, re-keep of changed code, evaluation with nested keeps and a "
+            "3-segment path, cache-wrapped store, second data view, code edited after the crash) is killed before every one of its "
+            "file-system primitives - each half of each write counts - and a fresh virtual process then loads the previously committed "
+            "paths (old or new complete value), evaluates again (correct values, no exception), loads again and evaluates once more "
+            "(nothing executes). Two workloads (thorough: all) are also killed at every primitive of the recovery evaluation.",
+            "kill -9 semantics (completed system calls durable); file-system model validated against the kernel on every workload trace",
+            "5/C06"),
+    "C07": ("fsmc", "model_checking",
+            "stateless DFS over interleavings of file-system primitives with an iterated preemption bound and exact state keys, on the real code",
+            "Twelve scenarios of 2-3 virtual processes (threads with private copies of all dds module state, one baton) run the real "
+            "dds.set_store / keep / eval / load against one in-memory POSIX file system; every schedule of their file-system primitives "
+            "with at most 2 (thorough 3) preemptions is explored, pruned on exact state keys; every keep/load that returns must return a "
+            "complete allowed value, no process may fail, and a fresh process must afterwards load every path and re-keep without "
+            "executing. Every complete schedule's merged trace is replayed against a real directory (model validation).",
+            "processes share only the directory; advisory locks are not modelled (reported as harness error)",
+            "5/C07"),
+    "C16": ("seqmc", "exploration",
+            "exhaustive product of local-store configurations run as real interpreters + BFS to closure over two data views",
+            "(a) internal_dir form x data_dir form over {absolute, relative, trailing slash, nested non-existing, symlinked parent at another "
+            "depth} x cache_objects x {same cwd, other cwd in the second process, os.chdir inside one process}: process 1 keeps two paths "
+            "(1 and 3 segments), process 2 loads both and keeps again without executing. (b) BFS to closure over {keep in view 1|2 (with a "
+            "nested keep), edit, load of both paths in view 1|2} for two data directories on one internal directory against a dictionary "
+            "model: blobs shared, views independent.",
+            "a process in another working directory passes the absolute form of the same directories",
+            "5/C16"),
 }
 
 NOT_YET = {}
